@@ -80,6 +80,7 @@ type c12eConn struct {
 	lastCon   int // message ID of the last confirmable message the connection wrote
 	peerMID   int
 	flags     []string
+	doneMIDs  []int // message IDs of the messages the receive function has returned for, in order (one per signal on processed)
 }
 
 func c12eToken(k int) []byte { return []byte{0xE0 + byte(k&0xf), 0x12, 0xC1} }
@@ -116,12 +117,16 @@ func newC12eConn(tr *poolTracker, p *pool.Pool) *c12eConn {
 	}
 	cfg.ProcessReceivedMessage = func(req *pool.Message, cc *client.Conn, handler config.HandlerFunc[*client.Conn]) {
 		w := &c.win
+		mid := int(req.MessageID())
 		defer func() {
 			if r := recover(); r != nil {
 				tr.notePanic(r) // a panic on the receive path is an observable, not a crash of hx
 				w.panicked = true
 			}
 			w.end = len(tr.peek())
+			c.mu.Lock()
+			c.doneMIDs = append(c.doneMIDs, mid)
+			c.mu.Unlock()
 			c.processed <- struct{}{}
 		}()
 		w.m = req
@@ -452,6 +457,7 @@ func (c *c12eConn) inject(d []byte, tok int, blk bool, desc string) (o c12eObs, 
 	}
 	c.mu.Lock()
 	c.errs = nil
+	c.doneMIDs = nil
 	c.mu.Unlock()
 	c.win = c12eWin{}
 	func() {
